@@ -642,7 +642,13 @@ public:
     suspend_point<bool> set_value(Args && ... args) {
         auto m = claim();
         if (m) {
-            m->set(std::forward<Args>(args)...);
+            try {
+                m->set(std::forward<Args>(args)...);
+            } catch (...) {
+                //the value can't be constructed, but the future is already claimed - nobody else
+                //can resolve it now. Resolve it with the exception thrown by the constructor
+                m->set(std::current_exception());
+            }
             return suspend_point<bool>(m->resolve(), true);
         }
         return suspend_point<bool>(false);
